@@ -101,6 +101,10 @@ func (p *State) Class(classHash *felt.Felt) (*core.DeclaredClassDefinition, erro
 func (p *State) CompiledClassHash(
 	classHash *felt.SierraClassHash,
 ) (felt.CasmClassHash, error) {
+	// a class migrated by the overlaid diff answers with its migrated hash, as the stored state does
+	if casmHash, found := p.stateDiff.MigratedClasses[*classHash]; found {
+		return casmHash, nil
+	}
 	classHashFelt := felt.Felt(*classHash)
 	if casmHash, found := p.stateDiff.DeclaredV1Classes[classHashFelt]; found {
 		return felt.CasmClassHash(*casmHash), nil
